@@ -12,7 +12,7 @@ def shape(rng, did, n, mask, kinds="mixed", generics="none", style="none"):
     vs = []
     for i in range(n):
         kind = "unit" if kinds == "unit" else rng.choice(["unit", "unit", "tuple", "named"])
-        nf = 0 if kind == "unit" else rng.choice([1, 2])
+        nf = 0 if kind == "unit" else rng.choice([0, 1, 2])
         fs = SC.rand_fields(rng, kind, nf, generics)
         v = variant(IDS[i], kind, fs, dis=bool(mask[i]))
         decorate(rng, v)
